@@ -261,6 +261,7 @@ def provModelFails (p : PoolIn) : Option Bool :=
       else if tail == "rderr" then .ioError else .clean
     if kind == "json" then
       (Prov.decodeRun { openOk := openOk } none (Prov.answers k t)).map (·.res.isErr)
+    else if kind != "gj" then none    -- the http provider is not modelled here
     else
       -- grpc/json: the base provider's `Run`; what the concrete `start` returns on a broken line is an error
       some (Prov.grpcRun openOk (if t == .clean then .nil else .decodeFailed k .parseErr) k).res.isErr
@@ -272,8 +273,9 @@ def provModelBad (pl : Plan) (o : Obs) (i : Nat) (p : PoolIn) (po : PoolObs) : O
   | some false, some tok => if tok == "P.ok" || tok == "P.ctx" then none else some s!"prov-model-nil-vs-{tok}-p{i}"
   | some true, some tok =>
     let (_, k, _) := p.rp.getD ("", 0, "")
-    if tok == "P.e.prov" then none
-    else if p.demand > k && !o.canc && pl.cancel == "none" && pl.pools.length == 1 && p.fails.isEmpty && p.blk == "" then
+    -- `P.ctx`: something cancelled the provider before it got there (another fault of the plan, the end of the run)
+    if tok == "P.e.prov" || tok == "P.ctx" then none
+    else if p.demand > k && !o.canc && pl.cancel == "none" && pl.pools.length == 1 && p.fails.isEmpty && p.blk == "" && !p.aggErr then
       some s!"prov-model-err-vs-{tok}-p{i}"
     else none
   | _, _ => none
